@@ -80,3 +80,27 @@ void h_opus_encode_float(void)
    __CPROVER_assert(verif_n_frame == fs && verif_n_lsb == MAX_ENCODING_DEPTH && verif_n_max == maxb && verif_n_float_api == 1, "opus_encode_float: native encoder gets the selected frame size");
    __CPROVER_assert(verif_n_pcm == pcm && verif_n_apcm == pcm && verif_n_asize == afs && verif_n_downmix == (void *)downmix_float, "opus_encode_float: the caller's samples are passed through unchanged");
 }
+
+/* The three analysis down-mix functions (real bodies) are views of one function: on matched input (16-bit v, 24-bit 256*v,
+ * float v/32768) they produce bit-identical samples for every channel selection (c1; c2 = a second channel, -1 = none,
+ * -2 = all channels).  Bounded in the frame shape (VERIF_DM_N samples x VERIF_DM_C channels), samples/selection symbolic. */
+#ifndef VERIF_DM_N
+#define VERIF_DM_N 2
+#endif
+#ifndef VERIF_DM_C
+#define VERIF_DM_C 3
+#endif
+void h_downmix_views(void)
+{
+   opus_int16 s16[(VERIF_DM_N + 1) * VERIF_DM_C]; opus_int32 s24[(VERIF_DM_N + 1) * VERIF_DM_C]; float sf[(VERIF_DM_N + 1) * VERIF_DM_C];
+   opus_val32 y16[VERIF_DM_N], y24[VERIF_DM_N], yf[VERIF_DM_N]; int i, k = nondet_int(), offset = nondet_int(), c1 = nondet_int(), c2 = nondet_int(), n = nondet_int();
+   for (i = 0; i < (VERIF_DM_N + 1) * VERIF_DM_C; i++) { s16[i] = nondet_short(); s24[i] = 256 * (opus_int32)s16[i]; sf[i] = (float)s16[i] * (1.f / 32768.f); }
+   __CPROVER_assume(0 <= offset && offset <= 1 && 1 <= n && n <= VERIF_DM_N && 0 <= c1 && c1 < VERIF_DM_C && -2 <= c2 && c2 < VERIF_DM_C && 0 <= k && k < n);
+   CANARY_SET(c1, 0); CANARY_SET(c2, -1); CANARY_SET(n, 1); CANARY_SET(offset, 0); CANARY_SET(k, 0);     /* concrete witness for the reachability run */
+   downmix_int(s16, y16, n, offset, c1, c2, VERIF_DM_C);
+   downmix_int24(s24, y24, n, offset, c1, c2, VERIF_DM_C);
+   downmix_float(sf, yf, n, offset, c1, c2, VERIF_DM_C);
+   __CPROVER_assert(BITS(y16[k]) == BITS(y24[k]), "downmix_int24 on 256*v equals downmix_int on v, bit for bit, for every channel selection");
+   __CPROVER_assert(BITS(y16[k]) == BITS(yf[k]), "downmix_float on v/32768 equals downmix_int on v, bit for bit, for every channel selection");
+   CANARY("after downmix views");
+}
